@@ -184,7 +184,8 @@ func (s *simSys) simHTTPCollect(in *simInst, subs []*simHTTPSub, res *simRoundRe
 		if err != nil {
 			return nil, err
 		}
-		scts[sub.Entry.dedupKey()] = sub.rec.Body.Bytes()
+		// keyed by entry and acknowledgement: the same (entry, index, timestamp) must always give the same SCT bytes
+		scts[fmt.Sprintf("%s|%d|%d", sub.Entry.dedupKey(), idx, ts)] = sub.rec.Body.Bytes()
 		s.resolveAck(in, simAck{Entry: sub.Entry, Index: idx, Time: ts, Proc: in.p.id, Op: s.w.opN, Src: "http"}, res)
 	}
 	return scts, nil
